@@ -5,11 +5,13 @@ import InToto.Proofs.RulesItems
 /-!
 C03 for ALL artifact names (no `CleanCtx` hypothesis).
 
-`VerifyArtifacts` cleans artifact maps in place, lazily: an item's own two maps at the top of the
-item's round, the source and the destination map of a MATCH rule when the rule is evaluated.  Every
-READ of a map happens after that map was cleaned, and cleaning is idempotent (`cleanArts_idem`, from
-`PathClean.clean_idem`).  Hence the lazily cleaned run is simulated by the run on the context whose
-maps are all cleaned up front (`cleanCtx`): the simulation relation is simply
+`VerifyArtifacts` never reads a recorded artifact map as it is: an item's created / deleted /
+modified sets and its two queues are computed from cleaned COPIES of the item's own two maps, and a
+MATCH rule reads cleaned copies of its source and of its destination map (`cleanArts`, Go
+`cleanArtifactPaths`).  The links themselves are never written to (finding F22, repaired; theorems
+`verifyMatchRule_ctx` … `verifyArtifacts_leaves_links_untouched` below).  Cleaning is idempotent
+(`cleanArts_idem`, from `PathClean.clean_idem`).  Hence the run is simulated by the run on the context
+whose maps are all cleaned up front (`cleanCtx`): the simulation relation is simply
 `cleanCtx ctx = ctx'`, and every stage of the interpreter commutes with `cleanCtx`.
 -/
 
@@ -61,7 +63,6 @@ theorem cleanCtx_clean (ctx : Ctx) : CleanCtx (cleanCtx ctx) := by
     exact ⟨cleanArts_clean _, cleanArts_clean _⟩
 
 theorem cleanCtx_idem (ctx : Ctx) : cleanCtx (cleanCtx ctx) = cleanCtx ctx := by
-  have h := ctxUpdate_cleanLink_clean (cleanCtx ctx) (cleanCtx_clean ctx)
   induction ctx with
   | nil => rfl
   | cons e t ih =>
@@ -69,18 +70,12 @@ theorem cleanCtx_idem (ctx : Ctx) : cleanCtx (cleanCtx ctx) = cleanCtx ctx := by
     cases v with
     | none =>
       show (k, none) :: cleanCtx (cleanCtx t) = (k, none) :: cleanCtx t
-      rw [ih (fun name => by
-        have := h name
-        simp only [cleanCtx, ctxUpdate, List.map_cons, List.cons.injEq] at this
-        exact this.2)]
+      rw [ih]
     | some l =>
       show (k, some (cleanLink (cleanLink l))) :: cleanCtx (cleanCtx t) = (k, some (cleanLink l)) :: cleanCtx t
-      rw [cleanLink_idem, ih (fun name => by
-        have := h name
-        simp only [cleanCtx, ctxUpdate, List.map_cons, List.cons.injEq] at this
-        exact this.2)]
+      rw [cleanLink_idem, ih]
 
-/-! ### lookups in updated / cleaned contexts -/
+/-! ### lookups in cleaned contexts -/
 
 theorem lookup_cleanCtx (n : Str) (ctx : Ctx) :
     lookup n (cleanCtx ctx) = (lookup n ctx).map (Option.map cleanLink) := by
@@ -94,33 +89,8 @@ theorem lookup_cleanCtx (n : Str) (ctx : Ctx) :
     · rfl
     · exact ih
 
-theorem lookup_ctxUpdate (n name : Str) (f : LinkArts → LinkArts) (ctx : Ctx) :
-    lookup n (ctxUpdate ctx name f) =
-      if n = name then (lookup n ctx).map (Option.map f) else lookup n ctx := by
-  induction ctx with
-  | nil => simp [ctxUpdate, lookup]
-  | cons e t ih =>
-    obtain ⟨k, v⟩ := e
-    have ih' : lookup n (List.map (fun e => if e.1 = name then (e.1, e.2.map f) else e) t) =
-        if n = name then (lookup n t).map (Option.map f) else lookup n t := ih
-    simp only [ctxUpdate, List.map_cons]
-    by_cases hk : k = name
-    · simp only [hk, if_true, lookup]
-      by_cases hn : name = n
-      · simp [hn]
-      · rw [if_neg hn, if_neg hn, ih']
-    · simp only [hk, if_false, lookup]
-      by_cases hn : k = n
-      · subst hn
-        simp [hk]
-      · rw [if_neg hn, if_neg hn, ih']
-
 theorem sel_cleanLink (t : ArtType) (l : LinkArts) : sel t (cleanLink l) = cleanArts (sel t l) := by
   cases t <;> rfl
-
-theorem sel_setSel (t t' : ArtType) (l : LinkArts) (a : Arts) :
-    sel t' (setSel t l a) = if t' = t then a else sel t' l := by
-  cases t <;> cases t' <;> simp [sel, setSel]
 
 theorem ctxArts_cleanCtx (ctx : Ctx) (n : Str) (t : ArtType) :
     ctxArts (cleanCtx ctx) n t = cleanArts (ctxArts ctx n t) := by
@@ -133,96 +103,6 @@ theorem ctxArts_cleanCtx (ctx : Ctx) (n : Str) (t : ArtType) :
     | none => rfl
     | some l => exact sel_cleanLink t l
 
-/-- reading a map after the in-place clean-up of one map (of type `t` of the link `name`) -/
-theorem ctxArts_upd (ctx : Ctx) (name : Str) (t : ArtType) (n : Str) (t' : ArtType) :
-    ctxArts (ctxUpdate ctx name fun l => setSel t l (cleanArts (sel t l))) n t' =
-      if n = name ∧ t' = t then cleanArts (ctxArts ctx n t') else ctxArts ctx n t' := by
-  unfold ctxArts
-  rw [lookup_ctxUpdate]
-  by_cases hn : n = name
-  · simp only [hn, if_true, true_and]
-    cases lookup name ctx with
-    | none =>
-      simp only [Option.map]
-      split <;> rfl
-    | some o =>
-      cases o with
-      | none =>
-        simp only [Option.map]
-        split <;> rfl
-      | some l =>
-        simp only [Option.map, sel_setSel]
-        split
-        · rename_i ht; rw [ht]
-        · rfl
-  · simp only [hn, if_false, false_and]
-
-/-- after the two clean-ups of a MATCH rule, the source map and the destination map ARE cleaned -/
-theorem ctxArts_upd2 (ctx : Ctx) (sn : Str) (st : ArtType) (dn : Str) (dt : ArtType) (n : Str)
-    (t : ArtType) (h : (n = sn ∧ t = st) ∨ (n = dn ∧ t = dt)) :
-    ctxArts (ctxUpdate (ctxUpdate ctx sn fun l => setSel st l (cleanArts (sel st l))) dn
-        fun l => setSel dt l (cleanArts (sel dt l))) n t = cleanArts (ctxArts ctx n t) := by
-  rw [ctxArts_upd, ctxArts_upd]
-  by_cases h1 : n = sn ∧ t = st
-  · rw [if_pos h1]
-    split
-    · exact cleanArts_idem _
-    · rfl
-  · rw [if_neg h1]
-    rcases h with h | h
-    · exact absurd h h1
-    · rw [if_pos h]
-
-theorem cleanLink_upd (t : ArtType) (l : LinkArts) :
-    cleanLink (setSel t l (cleanArts (sel t l))) = cleanLink l := by
-  cases t <;> simp only [cleanLink, setSel, sel, cleanArts_idem]
-
-/-- the in-place clean-up of one map is invisible after `cleanCtx` -/
-theorem cleanCtx_upd (ctx : Ctx) (name : Str) (t : ArtType) :
-    cleanCtx (ctxUpdate ctx name fun l => setSel t l (cleanArts (sel t l))) = cleanCtx ctx := by
-  induction ctx with
-  | nil => rfl
-  | cons e rest ih =>
-    obtain ⟨k, v⟩ := e
-    have ih' : cleanCtx (List.map (fun e => if e.1 = name then
-        (e.1, e.2.map fun l => setSel t l (cleanArts (sel t l))) else e) rest) = cleanCtx rest := ih
-    simp only [ctxUpdate, List.map_cons]
-    by_cases hk : k = name
-    · simp only [hk, if_true]
-      show (name, _) :: cleanCtx _ = (name, _) :: cleanCtx rest
-      rw [ih']
-      cases v with
-      | none => rfl
-      | some l =>
-        show (name, some (cleanLink (setSel t l (cleanArts (sel t l))))) :: _ = (name, some (cleanLink l)) :: _
-        rw [cleanLink_upd]
-    · simp only [hk, if_false]
-      show (k, _) :: cleanCtx _ = (k, _) :: cleanCtx rest
-      rw [ih']
-
-/-- the in-place clean-up of an item's own link is invisible after `cleanCtx` -/
-theorem cleanCtx_updLink (ctx : Ctx) (name : Str) :
-    cleanCtx (ctxUpdate ctx name cleanLink) = cleanCtx ctx := by
-  induction ctx with
-  | nil => rfl
-  | cons e rest ih =>
-    obtain ⟨k, v⟩ := e
-    have ih' : cleanCtx (List.map (fun e => if e.1 = name then (e.1, e.2.map cleanLink) else e) rest)
-        = cleanCtx rest := ih
-    simp only [ctxUpdate, List.map_cons]
-    by_cases hk : k = name
-    · simp only [hk, if_true]
-      show (name, _) :: cleanCtx _ = (name, _) :: cleanCtx rest
-      rw [ih']
-      cases v with
-      | none => rfl
-      | some l =>
-        show (name, some (cleanLink (cleanLink l))) :: _ = (name, some (cleanLink l)) :: _
-        rw [cleanLink_idem]
-    · simp only [hk, if_false]
-      show (k, _) :: cleanCtx _ = (k, _) :: cleanCtx rest
-      rw [ih']
-
 /-! ### every stage of the interpreter commutes with `cleanCtx` -/
 
 def omap {α β} (f : α → β) : Outcome α → Outcome β
@@ -233,8 +113,8 @@ def omap {α β} (f : α → β) : Outcome α → Outcome β
 theorem omap_isOk {α β} (f : α → β) (x : Outcome α) : (omap f x).isOk = x.isOk := by
   cases x <;> rfl
 
-/-- MATCH: the lazily cleaned run consumes what the run on the fully cleaned context consumes, and
-    leaves a context with the same cleaned view -/
+/-- MATCH: the run (on cleaned copies of the two maps it reads) consumes what the run on the fully
+    cleaned context consumes, and hands back a context with the same cleaned view -/
 theorem verifyMatchRule_sim (glob : Str → Str → Bool) (p sp dp : Str) (dt : ArtType) (dn sn : Str)
     (st : ArtType) (q : List Str) (ctx : Ctx) :
     ((verifyMatchRule glob p sp dp dt dn sn st q ctx).1,
@@ -249,11 +129,7 @@ theorem verifyMatchRule_sim (glob : Str → Str → Bool) (p sp dp : Str) (dt : 
     | none => rfl
     | some d =>
       simp only [Option.map]
-      rw [ctxUpdate_clean (cleanCtx ctx) (cleanCtx_clean ctx) sn st,
-        ctxUpdate_clean (cleanCtx ctx) (cleanCtx_clean ctx) dn dt,
-        cleanCtx_upd, cleanCtx_upd, ctxArts_cleanCtx, ctxArts_cleanCtx,
-        ctxArts_upd2 ctx sn st dn dt sn st (Or.inl ⟨rfl, rfl⟩),
-        ctxArts_upd2 ctx sn st dn dt dn dt (Or.inr ⟨rfl, rfl⟩)]
+      rw [ctxArts_cleanCtx, ctxArts_cleanCtx, cleanArts_idem, cleanArts_idem]
 
 theorem ruleStep_sim (glob : Str → Str → Bool) (sn : Str) (st : ArtType) (c d m : List Str) (r : Rule)
     (q : List Str) (ctx : Ctx) :
@@ -313,15 +189,14 @@ theorem verifyItem_sim (glob : Str → Str → Bool) (ctx : Ctx) (item : Item) :
       rw [hl] at hlc
       rw [verifyItem_eq_gen glob ctx item l hl,
         verifyItem_eq_gen glob (cleanCtx ctx) item (cleanLink l) hlc,
-        cleanLink_idem, ctxUpdate_cleanLink_clean (cleanCtx ctx) (cleanCtx_clean ctx)]
+        cleanLink_idem]
       have h1 := applyRules_sim glob item.name .materials (createdOf (cleanLink l))
         (deletedOf (cleanLink l)) (modifiedOf (cleanLink l)) item.expMaterials
-        (matQueue (cleanLink l)) (ctxUpdate ctx item.name cleanLink)
-      rw [cleanCtx_updLink] at h1
+        (matQueue (cleanLink l)) ctx
       rw [← h1]
       cases applyRules glob item.name .materials (createdOf (cleanLink l))
         (deletedOf (cleanLink l)) (modifiedOf (cleanLink l)) item.expMaterials
-        (matQueue (cleanLink l)) (ctxUpdate ctx item.name cleanLink) with
+        (matQueue (cleanLink l)) ctx with
       | err e => rfl
       | panic e => rfl
       | ok x =>
@@ -349,6 +224,127 @@ theorem verifyArtifacts_sim (glob : Str → Str → Bool) (items : List Item) (c
     | ok ctx1 => exact ih ctx1
     | err e => rfl
     | panic e => rfl
+
+/-! ### the links are never written to (finding F22, repaired) -/
+
+/-- MATCH hands the context back as it came, whatever the artifact names -/
+theorem verifyMatchRule_ctx (glob : Str → Str → Bool)
+    (pattern srcPrefix dstPrefix : Str) (dstType : ArtType) (dstName : Str)
+    (srcName : Str) (srcType : ArtType) (queue : List Str) (ctx : Ctx) :
+    (verifyMatchRule glob pattern srcPrefix dstPrefix dstType dstName srcName srcType queue ctx).2 = ctx := by
+  unfold verifyMatchRule
+  split <;> rfl
+
+/-- no rule changes the context -/
+theorem ruleStep_ctx (glob : Str → Str → Bool) (sn : Str) (st : ArtType) (c d m : List Str) (r : Rule)
+    (q : List Str) (ctx : Ctx) (consumed : List Str) (ctx' : Ctx)
+    (h : ruleStep glob sn st c d m r q ctx = some (consumed, ctx')) : ctx' = ctx := by
+  cases r with
+  | simple t p =>
+    cases t <;> simp only [ruleStep] at h
+    · cases h; rfl
+    · cases h; rfl
+    · cases h; rfl
+    · cases h; rfl
+    · split at h
+      · cases h; rfl
+      · cases h
+    · split at h
+      · cases h; rfl
+      · cases h
+  | mtch p sp dp dt dn =>
+    simp only [ruleStep, Option.some.injEq] at h
+    have := verifyMatchRule_ctx glob p sp dp dt dn sn st q ctx
+    rw [h] at this
+    exact this
+
+/-- the rule loop of one round returns the context it was given -/
+theorem applyRules_ctx (glob : Str → Str → Bool) (sn : Str) (st : ArtType) (c d m : List Str)
+    (rules : List (List Str)) (q : List Str) (ctx : Ctx) (q' : List Str) (ctx' : Ctx)
+    (h : applyRules glob sn st c d m rules q ctx = .ok (q', ctx')) : ctx' = ctx := by
+  induction rules generalizing q with
+  | nil =>
+    simp only [applyRules] at h
+    cases h
+    rfl
+  | cons rule rest ih =>
+    simp only [applyRules] at h
+    cases hu : unpackRule rule with
+    | err e => rw [hu] at h; cases h
+    | panic s => rw [hu] at h; cases h
+    | ok r =>
+      rw [hu] at h
+      simp only at h
+      cases hr : ruleStep glob sn st c d m r q ctx with
+      | none => rw [hr] at h; cases h
+      | some x =>
+        obtain ⟨consumed, ctx1⟩ := x
+        rw [hr] at h
+        simp only at h
+        have e := ruleStep_ctx glob sn st c d m r q ctx consumed ctx1 hr
+        subst e
+        exact ih _ h
+
+/-- one item (both rounds) returns the context it was given -/
+theorem verifyItem_ctx (glob : Str → Str → Bool) (ctx : Ctx) (item : Item) (ctx' : Ctx)
+    (h : verifyItem glob ctx item = .ok ctx') : ctx' = ctx := by
+  cases hl : lookup item.name ctx with
+  | none =>
+    unfold verifyItem at h
+    rw [hl] at h
+    cases h
+  | some o =>
+    cases o with
+    | none =>
+      unfold verifyItem at h
+      rw [hl] at h
+      cases h
+    | some l =>
+      rw [verifyItem_eq_gen glob ctx item l hl] at h
+      cases h1 : applyRules glob item.name .materials (createdOf (cleanLink l))
+        (deletedOf (cleanLink l)) (modifiedOf (cleanLink l)) item.expMaterials
+        (matQueue (cleanLink l)) ctx with
+      | err e => rw [h1] at h; cases h
+      | panic e => rw [h1] at h; cases h
+      | ok x =>
+        obtain ⟨q1, ctx1⟩ := x
+        rw [h1] at h
+        simp only at h
+        have e1 := applyRules_ctx _ _ _ _ _ _ _ _ _ _ _ h1
+        subst e1
+        cases h2 : applyRules glob item.name .products (createdOf (cleanLink l))
+          (deletedOf (cleanLink l)) (modifiedOf (cleanLink l)) item.expProducts
+          (prodQueue (cleanLink l)) ctx1 with
+        | err e => rw [h2] at h; cases h
+        | panic e => rw [h2] at h; cases h
+        | ok y =>
+          obtain ⟨q2, ctx2⟩ := y
+          rw [h2] at h
+          simp only at h
+          have e2 := applyRules_ctx _ _ _ _ _ _ _ _ _ _ _ h2
+          cases h
+          exact e2
+
+/-- `VerifyArtifacts` never writes to the links it verifies, whatever their artifact names: a
+    successful run hands back exactly the context it was given -/
+theorem verifyArtifacts_leaves_links_untouched (glob : Str → Str → Bool) (items : List Item)
+    (ctx ctx' : Ctx) (h : verifyArtifacts glob items ctx = .ok ctx') : ctx' = ctx := by
+  induction items generalizing ctx with
+  | nil =>
+    simp only [verifyArtifacts] at h
+    cases h
+    rfl
+  | cons item rest ih =>
+    unfold verifyArtifacts at h
+    cases hv : verifyItem glob ctx item with
+    | ok ctx1 =>
+      rw [hv] at h
+      simp only at h
+      have e := verifyItem_ctx glob ctx item ctx1 hv
+      subst e
+      exact ih _ h
+    | err e => rw [hv] at h; cases h
+    | panic e => rw [hv] at h; cases h
 
 /-! ### the theorems -/
 
